@@ -44,21 +44,35 @@ let () =
       | [id; syls; rules; queries; limits] ->
         (try
           let syls = List.map bytes_of_hex (split ',' syls) in
-          let calcs = List.mapi parse_rule (split ';' rules) in
+          let merge_mode = String.length rules > 2 && String.sub rules 0 2 = "M:" in
+          let calcs = if merge_mode then [] else List.mapi parse_rule (split ';' rules) in
           let queries = List.map bytes_of_hex (split ',' queries) in
           let limits = List.map int_of_string (split ',' limits) in
           let syllabary = syllabary_of syls in
-          Printf.printf "%s FLAGS %s\n" id
+          if not merge_mode then Printf.printf "%s FLAGS %s\n" id
             (if calcs = [] then "-" else String.concat "," (List.map (fun c ->
               Printf.sprintf "%s:%d%d" (letter c.ckind) (if kind_deletion c.ckind then 1 else 0)
                 (if kind_addition c.ckind then 1 else 0)) calcs));
-          let (applied, sc) = project calcs (init_script syllabary) in
+          let mkprops f o = { ptype = nat_of_int (int_of_string (List.nth f o));
+                              pcred = z_of_int (int_of_string (List.nth f (o + 1)));
+                              ptips = bytes_of_hex (List.nth f (o + 2)) } in
+          let (applied, sc) =
+            if merge_mode then
+              (true, List.fold_left (fun sc op ->
+                match String.split_on_char '|' op with
+                | [k; sp; v] ->
+                  merge (bytes_of_hex k) (mkprops (String.split_on_char ':' sp) 0)
+                    (List.map (fun e -> let f = String.split_on_char ':' e in
+                                { sstr = bytes_of_hex (List.hd f); sprops = mkprops f 1 }) (split ',' v)) sc
+                | _ -> sc) [] (split ';' (String.sub rules 2 (String.length rules - 2))))
+            else project calcs (init_script syllabary) in
           Printf.printf "%s SCRIPT %d %s\n" id (if applied then 1 else 0)
             (if sc = [] then "-" else String.concat ";" (List.map (fun (k, v) ->
               hex_of_bytes k ^ "=" ^ String.concat "," (List.map (fun x ->
                 Printf.sprintf "%s:%d:%d:%s" (hex_of_bytes x.sstr) (int_of_nat x.sprops.ptype)
                   (int_of_z x.sprops.pcred) (hex_of_bytes x.sprops.ptips)) v)) sc));
-          let p = build (fun c -> c) syllabary (compile_script syllabary calcs) in
+          let p = build (fun c -> c) syllabary
+                    (if merge_mode then (if sc = [] then None else Some sc) else compile_script syllabary calcs) in
           Printf.printf "%s PRISM null=%d n=%d nsyl=%d alpha=%s\n" id
             (match p.p_map with None -> 1 | Some _ -> 0)
             (List.length p.p_keys) (List.length syllabary) (hex_of_bytes p.p_alphabet);
